@@ -29,7 +29,7 @@ REQUIRE_CLAUSES = ["refuses_missing_or_duplicate", "no_spurious_error", "emits_e
                    "weight_never_decreases_with_bin_size", "weight_never_increases_with_spread",
                    "unchanged_by_depth_scale_pow2", "unchanged_by_depth_scale_any", "unchanged_by_row_permutation"]
 
-LU, SU, GU, DU = 1024, 1024, 10000, 8
+LU, SU, GU, DU = 1024, 10**6, 10000, 8     # units: log2 1/1024, spread 1e-6, gc/rmask 1e-4, depth 1/8
 STEP = 64                        # log2 grid of the inputs: 1/16
 NULL_L = -20 * LU
 # chromosome id -> name; the natural order (skgenome.chromsort.sorter_chrom) is the id order, the lexicographic
@@ -257,7 +257,7 @@ def gen_case(rng: random.Random, hard, var_kind, big):
             rms[j] = rms[i]
     edge_gc = [GcLoHi[0], GcLoHi[0] + 1, GcLoHi[1] - 1, GcLoHi[1]]
     rng.shuffle(edge_gc)
-    levels = [0, 16, 64, 128, 256, 512, 900]
+    levels = [0, 15625, 62500, 125000, 250000, 500000, 878906]
     ref = []
     for k, (c, s, e, cls) in enumerate(bins):
         l = 0 if flat and c <= nauto else (-LU if flat else STEP * rng.randint(-40, 40))
@@ -273,7 +273,7 @@ def gen_case(rng: random.Random, hard, var_kind, big):
             elif kind == "hi":
                 l = 5 * LU + (STEP * rng.randint(2, 200) if far else STEP)
             elif kind == "spread":
-                sp = SU + (rng.randint(2, 3000) if far else 1)
+                sp = SU + (rng.randint(2, 3000000) if far else 1)
             elif kind == "depth":
                 dp = 0
             elif kind == "gclo":
@@ -374,6 +374,80 @@ def random_inputs(ctx: Ctx, n, n_big):
     for k in range(n):
         out.append(gen_case(rng, k % 5 == 4, kinds[k % 4], big=(k < n_big)))
     return out
+
+
+# ------------------------------------------------------------------------------------------------ weight-floor probe
+N_TINY, N_LARGE, TINY = 320, 16, 4
+
+
+def _probe_input(rng, anti, spreads=None):
+    """A pooled-like reference with a block of N_TINY equal-size tiny bins of one class (plus a few large bins, so the
+    tiny ones' relative size is small) under a noisy sample: the raw weight 0.9(1-spread^2) + 0.1(1-var/rel_size) of
+    the tiny bins crosses zero at some spread below 1.  spreads: the tiny bins' reference spreads (units of 1e-6)."""
+    bins = [(1 + (j % 2), 1000 * (j // 2), 1000 * (j // 2) + TINY) for j in range(N_TINY)]
+    bins += [(1 + (i % 3), 10**6 + 40000 * i, 10**6 + 40000 * i + 10000 + 137 * i) for i in range(N_LARGE)]
+    if spreads is None:                                             # pass 1: the whole range 0 .. 1, coarse
+        spreads = [round(j * SU / (N_TINY - 1)) for j in range(N_TINY)]
+    spreads = list(spreads)
+    rng.shuffle(spreads)
+    gcs = rng.sample(range(GcLoHi[0], GcLoHi[1] + 1), len(bins) + 3)
+    ref, smp = [], []
+    for k, (c, s, e) in enumerate(bins):
+        l = STEP * rng.randint(-32, 32)
+        sp = spreads[k] if k < N_TINY else rng.choice([62500, 125000, 250000])
+        ref.append([c, s, e, l, sp, DU * rng.randint(1, 50), gcs[k], rng.randint(0, GU)])
+        smp.append([c, s, e, l + STEP * rng.randint(-24, 24), 0])
+    tgt, ant = (smp, [])
+    if anti:                                                        # the block is off-target; three ordinary targets
+        ant = sorted(smp)
+        tgt = []
+        for i in range(3):
+            c, s, e = 1 + i, 5 * 10**6 + 1000 * i, 5 * 10**6 + 1000 * i + 200 + i
+            ref.append([c, s, e, STEP * rng.randint(-32, 32), 125000, DU * 10, gcs[len(bins) + i], rng.randint(0, GU)])
+            tgt.append([c, s, e, STEP * rng.randint(-24, 24), 0])
+    tgt.sort()
+    rng.shuffle(ref)
+    return {"op": "fix", "nauto": 3, "naming": rng.choice([0, 1]), "gc": False, "edge": False, "rmask": False,
+            "hasgc": True, "hasrmask": True, "hasdepth": True, "ref": ref, "tgt": tgt, "ant": ant, "var": dict(NOVAR),
+            "probe": 1}
+
+
+def _tiny_weights(rec):
+    """[(reference spread, round(weight * 10^12))] of the tiny bins of a probe record, by spread (placing inputs only)."""
+    sp = {tuple(r[:3]): r[4] for r in rec["ref"]}
+    return sorted((sp[tuple(o[:3])], o[10] * 10**6 + o[11]) for o in rec["out"]
+                  if o[2] - o[1] == TINY and not o[9] and tuple(o[:3]) in sp)
+
+
+def weight_floor_probe(ctx: Ctx, n):
+    """Two passes per probe: a coarse scan of the tiny bins' reference spreads over 0..1, then -- reading back where the
+    real code's weights first sit on the floor 1e-4 -- a fine scan (step ~1.2e-5) across that crossing.  The real output
+    is used to *place* the second input; both records are judged by TLC like any other."""
+    seeds = [ctx.rng.randrange(2**31) for _ in range(n)]
+    first = ctx.execute(execute, [_probe_input(random.Random(sd), k % 2 == 1) for k, sd in enumerate(seeds)],
+                        chunksize=1)
+    second_in = []
+    for k, (sd, rec) in enumerate(zip(seeds, first)):
+        ws = _tiny_weights(rec)
+        floor = [i for i, (s, w) in enumerate(ws) if w == 10**8]
+        above = [i for i, (s, w) in enumerate(ws) if w > 10**8]
+        if not floor or not above or floor[0] == 0:
+            ctx.bump("weight_floor_probe_no_crossing_in_coarse_scan")
+            continue
+        lo, hi = ws[floor[0] - 1][0], ws[floor[0]][0]
+        pad = max(1, (hi - lo) // 10)
+        a, b = max(0, lo - pad), min(SU, hi + pad)
+        fine = [a + round(j * (b - a) / (N_TINY - 1)) for j in range(N_TINY)]
+        second_in.append(_probe_input(random.Random(sd), k % 2 == 1, fine))
+        ctx.bump("weight_floor_probe_crossing_located")
+    second = ctx.execute(execute, second_in, chunksize=1)
+    for rec in second:
+        ws = _tiny_weights(rec)
+        ctx.bump("weight_floor_probe_fine_scan_bins_on_floor", sum(1 for s, w in ws if w == 10**8))
+        ctx.bump("weight_floor_probe_fine_scan_bins_within_1e-4_above_floor", sum(1 for s, w in ws if 10**8 < w <= 2 * 10**8))
+        ctx.bump("weight_floor_probe_fine_scan_bins_below_floor", sum(1 for s, w in ws if w < 10**8))
+    ctx.bump("weight_floor_probe_records", len(first) + len(second))
+    return first + second, len(second)
 
 
 # ------------------------------------------------------------------------------------------------ bookkeeping
@@ -480,6 +554,8 @@ def run(ctx: Ctx):
     n_rand, n_big = (40, 4) if dev == 1 else (dev, dev // 10) if dev else ((3000, 300) if thorough else (240, 16))
     rnd = ctx.execute(execute, random_inputs(ctx, n_rand, n_big), chunksize=2)
     records += rnd
+    probes, located = weight_floor_probe(ctx, 1 if dev else (20 if thorough else 3))
+    records += probes
     for rec in records:
         ctx.count_input([rec[k] for k in ("op", "nauto", "naming", "gc", "edge", "rmask", "hasgc", "hasrmask",
                                           "hasdepth", "ref", "tgt", "ant")] + [rec["var"]["kind"], rec["var"]["k"]],
@@ -498,6 +574,9 @@ def run(ctx: Ctx):
                                           "undecided": sum(1 for v in verdicts if vc in v["undecided"])}
     if not decided:
         raise MachineryError("vacuity guard: the rolling-median clause was never decided with a correction applied")
+    ctx.notes["weight_floor_probe"] = {"probes": len(probes) - located, "fine_scans": located}
+    if not located and not ctx.violations:
+        raise MachineryError("vacuity guard: no weight-floor probe located the floor crossing")
     ctx.trusted_base = ["TLC 1.8 evaluation of spec/Fix.tla (+ Stats.RollingMedian, Num)",
                         "harness construction of CopyNumArray tables from integer rows (c04.py: value = k/1024, "
                         "gc = k/10000, names by id)",
